@@ -26,7 +26,8 @@ EXPLANATION = (
     'last_change_mutations map and marked removed is deleted from / '
     'overwritten in that map on every path, and only ChangeField mutations '
     'are ever registered there; the model handed to each op handler in '
-    'generate_table_op_sql is a fresh mutator.create_model().')
+    'generate_table_op_sql is a fresh mutator.create_model(); '
+    'R-C03.7 mutation membership tests in the optimiser are identity-based (set/dict), see R-C01.7; R-C03.8 no declared initial value is used as a truth value anywhere in mutations/, mutators/ and db/ (0, "", False are initial values; only None means absent).')
 NOT_DECIDED = (
     'Equivalence of the optimised run and the one-at-a-time run (signature, '
     'schema, rows) for all sequences: needs execution of both.')
@@ -445,7 +446,8 @@ def r6_consumed_entries_invalidated(ctx, rule_id='R-C03.6'):
     n_sites = 0
     for n in g.nodes:
         for c in n.calls():
-            if not (call_name(c) == 'add' and
+            if not (call_name(c) in ('add', 'append') and
+                    isinstance(c.func, ast.Attribute) and
                     unparse(c.func.value) == 'removed_mutations' and
                     c.args and isinstance(c.args[0], ast.Name)):
                 continue
@@ -536,7 +538,159 @@ def r6_consumed_entries_invalidated(ctx, rule_id='R-C03.6'):
                         key='registers-non-changefield')
 
 
+def r7_identity_membership(ctx, rule_id='R-C03.7'):
+    """BaseMutation.__eq__ is structural (same type and same hint text) while
+    __hash__ is id(self): the optimiser's "is this mutation marked as
+    removed / seen" tests must therefore go through hash-based containers
+    (set / dict), where membership is by identity.  A list or tuple makes
+    `m in c` an equality test, and a kept mutation that merely *looks like* a
+    removed one (add, delete, add the same field again) is dropped."""
+    ctx.rule(rule_id)
+    p = ctx.program
+    base = p.cls('mutations.base', 'BaseMutation')
+    eq, hs = base.methods.get('__eq__'), base.methods.get('__hash__')
+    structural = eq is not None and any(
+        call_name(c) == 'generate_hint' for c in walk_no_nested(eq.node)
+        if isinstance(c, ast.Call))
+    identity = hs is not None and any(
+        isinstance(c, ast.Call) and call_name(c) == 'id'
+        for c in walk_no_nested(hs.node))
+    if not (structural and identity):
+        ctx.info('BaseMutation no longer has structural __eq__ with identity '
+                 '__hash__; membership containers are unconstrained')
+        ctx.ok(base.methods.get('__eq__') or ('django_evolution.mutations.'
+                                              'base', 'BaseMutation'),
+               'eq/hash of mutations are consistent')
+        return
+    f = p.func(AM, 'AppMutator._process_mutation_batch')
+    from ..util import unit
+    n_tests = 0
+    for fn in unit(ctx, f):
+        g = ctx.cfg(fn)
+        from ..flow import ReachingDefs
+        rd = ReachingDefs(g, fn.params)
+        # names bound to elements of a mutation list
+        elem = set()
+        for n in walk_no_nested(fn.node, include_lambda=True):
+            it, tg = None, None
+            if isinstance(n, ast.For):
+                it, tg = n.iter, n.target
+            elif isinstance(n, ast.comprehension):
+                it, tg = n.iter, n.target
+            if it is not None and isinstance(tg, ast.Name) and \
+                    'mutations' in unparse(it) and \
+                    'by_model' not in unparse(it):
+                elem.add(tg.id)
+        for node in g.nodes:
+            for c in node.walk():
+                if not (isinstance(c, ast.Compare) and len(c.ops) == 1 and
+                        isinstance(c.ops[0], (ast.In, ast.NotIn)) and
+                        isinstance(c.left, ast.Name) and c.left.id in elem and
+                        isinstance(c.comparators[0], ast.Name)):
+                    continue
+                cont = c.comparators[0].id
+                n_tests += 1
+                kinds = set()
+                for d in rd.reaching(node, cont):
+                    v = d.value
+                    if d.kind != 'assign' or v is None:
+                        continue
+                    if isinstance(v, (ast.List, ast.Tuple, ast.ListComp)) or (
+                            isinstance(v, ast.Call) and
+                            call_name(v) in ('list', 'tuple', 'sorted')):
+                        kinds.add('list')
+                    elif isinstance(v, (ast.Set, ast.SetComp, ast.Dict,
+                                        ast.DictComp)) or (
+                            isinstance(v, ast.Call) and call_name(v) in (
+                                'set', 'frozenset', 'dict', 'OrderedDict')):
+                        kinds.add('hash')
+                    else:
+                        kinds.add('?')
+                if cont in fn.params and not kinds:
+                    # helper parameter: look at the argument in the caller
+                    from ..util import param_argument
+                    for a in param_argument(ctx, f, fn, cont) or []:
+                        if isinstance(a, ast.Name):
+                            gg = ctx.cfg(f)
+                            rdd = ReachingDefs(gg, f.params)
+                            for m2 in gg.nodes:
+                                for d in rdd.reaching(m2, a.id):
+                                    v = d.value
+                                    if d.kind == 'assign' and isinstance(
+                                            v, (ast.List, ast.ListComp)):
+                                        kinds.add('list')
+                                    elif d.kind == 'assign' and isinstance(
+                                            v, ast.Call) and \
+                                            call_name(v) == 'set':
+                                        kinds.add('hash')
+                if 'list' in kinds:
+                    ctx.finding(fn, c, 'membership of a mutation is tested '
+                                'against the sequence %r: BaseMutation.__eq__ '
+                                'is structural, so a kept mutation that equals '
+                                'a removed one is treated as removed too '
+                                '(identity is only guaranteed by set/dict '
+                                'membership)' % cont,
+                                key='equality-membership:%s' % cont)
+                else:
+                    ctx.ok(fn, 'mutation membership in %r is hash/identity '
+                           'based' % cont, c)
+    ctx.floor('mutation membership tests in the optimiser', n_tests, 1)
+
+
+def r8_initial_sentinel(ctx, rule_id='R-C03.8'):
+    """The declared initial value of a field is "absent" only when it is
+    None: 0, '', False and empty containers are legitimate initial values.
+    Any use of an `initial` value in a boolean context (if x / x and y /
+    x or default / not x) treats those as absent - a merged ChangeField
+    loses initial=0, an added column is filled with NULL instead of ''.
+    Every such use in the mutation -> SQL pipeline must be an explicit
+    comparison with None."""
+    ctx.rule(rule_id)
+    p = ctx.program
+    n_reads = 0
+
+    def is_initial(e):
+        return (isinstance(e, ast.Name) and e.id == 'initial') or \
+            (isinstance(e, ast.Attribute) and e.attr == 'initial')
+
+    for m in p.modules.values():
+        if not any(part in m.name for part in ('.mutations', '.mutators',
+                                               '.db.')):
+            continue
+        for f in m.all_funcs():
+            for n in ast.walk(f.node):
+                if is_initial(n) and isinstance(getattr(n, 'ctx', None),
+                                                ast.Load):
+                    n_reads += 1
+                tests = []
+                if isinstance(n, (ast.If, ast.While, ast.IfExp, ast.Assert)):
+                    tests.append(n.test)
+                elif isinstance(n, ast.BoolOp):
+                    tests += n.values
+                elif isinstance(n, ast.UnaryOp) and isinstance(n.op, ast.Not):
+                    tests.append(n.operand)
+                elif isinstance(n, ast.comprehension):
+                    tests += n.ifs
+                elif isinstance(n, ast.Call) and isinstance(
+                        n.func, ast.Name) and n.func.id == 'bool' and n.args:
+                    tests.append(n.args[0])
+                for t in tests:
+                    if is_initial(t):
+                        ctx.finding(f, t, 'the initial value %s is used as a '
+                                    'truth value: the legitimate initial '
+                                    'values 0, \'\', False are treated as '
+                                    '"no initial value"' % unparse(t),
+                                    key='initial-truthiness:%s' % unparse(t))
+    ctx.floor('reads of an initial value in mutations/mutators/db', n_reads,
+              20)
+    ctx.ok(('django_evolution.mutators.app_mutator', 'AppMutator'),
+           'no initial value is used as a truth value (%d reads inspected)'
+           % n_reads)
+
+
 def run(ctx):
+    r8_initial_sentinel(ctx)
+    r7_identity_membership(ctx)
     r6_consumed_entries_invalidated(ctx)
     r1_ownership(ctx)
     r5_mutations_pure(ctx)
